@@ -175,9 +175,9 @@ fn g_op(r: &mut Rng, c: &GCtx, depth: usize, out: &mut Vec<String>) {
             25 => out.push(format!("implicit_value:{}", g_bytes(r))),
             26 if refs => out.push(format!("implicit_pointer:{}:{}", c.dref(r), g_i64(r))),
             27 => {
-                // sizes of 2^61 bytes and more cannot be read back (recorded finding C15-1): rare
+                // sizes of 2^61 bytes and more are refused by the writer (ValueTooLarge, the fix for C15-1)
                 let v = g_u64(r);
-                out.push(format!("piece:{}", if v >= 1 << 61 && !r.chance(1, 8) { v >> 4 } else { v }))
+                out.push(format!("piece:{}", if v >= 1 << 61 && !r.chance(1, 4) { v >> 4 } else { v }))
             }
             28 => out.push(format!("bit_piece:{}:{}", g_u64(r), g_u64(r))),
             29 if refs => out.push(format!("parameter_ref:{}", c.eref_fixed(r))),
